@@ -319,6 +319,14 @@ class Machine:
             items.append(s3[-1])
         yield s2 + (Q(items, 0, (not ctx.unordered) or len(items) < 2),), env
 
+    def ev_bcap(self, n, stk, env):
+        drop, body = n[1], n[2]
+        inner = ("elist",) if body is None else ("cap", (), body)
+        for s2, _ in self.ev(inner, stk, env):
+            if len(s2) - 1 < drop:
+                raise HardError("stack underflow in drop-below")
+            yield s2[:len(s2) - 1 - drop] + (s2[-1],), env
+
     def ev_sub(self, n, stk, env):
         positive, ids, body = n[1], n[2], n[3]
         s2, e2 = self.bind(ids, stk, env) if ids else (stk, env)
@@ -391,35 +399,45 @@ class Machine:
         self.used_closure = True
         # Each ==-class is yielded once; WHICH member of a class (they can differ in
         # positions) depends on the undocumented traversal order, so differing positions
-        # are merged into "unknown".
-        out = {}
-        order = []
-        work = []
-        merged = [False]
+        # are merged into "unknown" -- and the merged member is what the body is fed, so
+        # that a body observing such a position makes the program indeterminate.
+        wild = {}
+        for _pass in range(4):
+            out = {}
+            order = []
+            work = []
+            newly = [False]
 
-        def add(s2):
-            kk = skey(s2)
-            if kk in out:
-                m = tuple(merge_pos(x, y) for x, y in zip(out[kk], s2))
-                if m != out[kk]:
-                    merged[0] = True
-                    out[kk] = m
-                return
-            out[kk] = s2
-            order.append(kk)
-            work.append(s2)
-        if kind == "*":
-            add(stk)
+            def add(s2):
+                kk = skey(s2)
+                if kk in wild:
+                    s2 = tuple(merge_pos(x, y) for x, y in zip(wild[kk], s2))
+                    if s2 != wild[kk]:
+                        wild[kk] = s2
+                        newly[0] = True
+                if kk in out:
+                    m = tuple(merge_pos(x, y) for x, y in zip(out[kk], s2))
+                    if m != out[kk]:
+                        wild[kk] = m
+                        newly[0] = True
+                    return
+                out[kk] = s2
+                order.append(kk)
+                work.append(s2)
+            if kind == "*":
+                add(stk)
+            else:
+                for s2, _ in self.ev(body, stk, self.feed(self.newscope(env))):
+                    add(s2)
+            while work:
+                cur = work.pop(0)
+                for s2, _ in self.ev(body, cur, self.feed(self.newscope(env))):
+                    self.tick()
+                    add(s2)
+            if not newly[0]:
+                break
         else:
-            for s2, _ in self.ev(body, stk, self.feed(self.newscope(env))):
-                add(s2)
-        while work:
-            cur = work.pop(0)
-            for s2, _ in self.ev(body, cur, self.feed(self.newscope(env))):
-                self.tick()
-                add(s2)
-        if merged[0] and observes_pos(body):
-            raise Indeterminate("closure body observes positions of a class with several members")
+            raise Indeterminate("closure classes with several members did not stabilise")
         if len(order) > 1:
             env["__ctx__"].unordered = True    # traversal order is not documented
         for kk in order:
@@ -722,6 +740,10 @@ def static_check(n, bound=frozenset(), scope=None):
     if k == "block":
         checkids(n[1])
         static_check(n[2], frozenset(set(bound) | set(n[1])), set(n[1]))
+        return set(bound)
+    if k == "bcap":
+        if n[2] is not None:
+            static_check(n[2], bound, set())
         return set(bound)
     if k == "infix":
         static_check(n[1], bound, set()); static_check(n[3], bound, set())
